@@ -88,7 +88,9 @@ for TARGET in $TARGETS; do
   for f in "$WORK/$TARGET"/a*/*; do
     [ -f "$f" ] || continue
     # a crash counts only if it also fails, for this property, on the production profile
-    if VERIF_FUZZ_PROPERTY=$ID "$VC" fuzz-replay --suite "$TARGET" --replay "$f" --verif-dir "$HERE" >/dev/null 2>&1; then
+    VERIF_FUZZ_PROPERTY=$ID "$VC" fuzz-replay --suite "$TARGET" --replay "$f" --verif-dir "$HERE" >/dev/null 2>&1; crc=$?
+    if [ $crc -ne 1 ]; then
+      # 0: not reproduced on the production profile / another property's subject; 2: harness problem - neither is a verdict
       other=$((other + 1))
     else
       dst="$HERE/replays/$ID-fuzz-$TARGET-$(basename "$f")"; cp "$f" "$dst"
